@@ -31,6 +31,8 @@ UNITS.update({
                                             cls='DataFrameDimension', cls_file=H),
     'SetDimension_indexOf_pair': dict(file=F, locator=PAIR + r'SetDimension::indexOf\s*\((?=\s*double\s+start\s*,\s*double\s+end\s*,\s*std::vector)',
                                       cls='SetDimension', cls_file=H, member_calls={'labels': 'SetDimension_labels'}),
+    'SampledDimension_indexOf_pair': dict(file=F, locator=PAIR + r'SampledDimension::indexOf\s*\((?=\s*double\s+start\s*,\s*double\s+end\s*,\s*const\s+double\s+sampling_interval)',
+                                          cls='SampledDimension', cls_file=H),
     'RangeDimension_indexOf_pair': dict(file=F, locator=PAIR + r'RangeDimension::indexOf\s*\((?=\s*double\s+start\s*,\s*double\s+end\s*,\s*std::vector)',
                                         cls='RangeDimension', cls_file=H, member_calls={'ticks': 'RangeDimension_ticks'}),
 })
@@ -86,6 +88,12 @@ def sampled_jobs():
         add(s, o, th, CH, True)
     return jobs
 JOBS += sampled_jobs()
+# sampled pair: end to end with the leaf BODY (reasoning from the local-form leaf contract would need the solver to
+# prove monotonicity of i*s+o for symbolic i); binary-fraction axes, each matching mode separately
+for (s_, o_, tiers_) in [('1.0', '0.0', ('quick', 'thorough')), ('0.5', '(3*(S_INT))', ('quick', 'thorough')), ('0.25', '0.5', ('thorough',)), ('2.0', '(-(S_INT))', ('thorough',))]:
+    JOBS.append(dict(name='SampledDimension_indexOf_pair[s=%s,o=%s]' % (s_, o_), bodies=['getSampledIndex', 'SampledDimension_indexOf_pair'],
+                     enforce=['SampledDimension_indexOf_pair'], replace=[], defines=['S_INT=' + s_, 'S_OFF=' + o_], tiers=tiers_,
+                     covers=['COVER-pair-has', 'COVER-pair-none', 'COVER-exclusive-at-first-sample'], expect_kinds=['postcondition'], timeout=1200))
 
 SPEC = dict(
     contracts=['c07_leaf.h', 'c07_pair.h'],
